@@ -817,6 +817,11 @@ func (g *Gen) spec(seed uint64, index int) Spec {
 		sc.Policy = simrt.PolNap
 		sc.Num = 1
 		sc.Den = []uint32{400, 100, 40, 20, 10, 5}[p.n(6)]
+		if p.chance(1, 2) {
+			// (no effect on a tree without atomic / sync operations)
+			sc.Hot = true
+			sc.Den = []uint32{2000, 400, 100}[p.n(3)]
+		}
 	case x < 15:
 		sc.Policy = simrt.PolPCT
 		sc.D = p.rng(1, 3)
@@ -832,6 +837,7 @@ func (g *Gen) spec(seed uint64, index int) Spec {
 		if p.chance(2, 3) {
 			sc.Policy = simrt.PolNap
 			sc.Den = []uint32{40, 20, 10}[p.n(3)]
+			sc.Hot = p.chance(1, 2)
 		} else {
 			sc.Policy = simrt.PolRandom
 			sc.Den = []uint32{4, 8, 20}[p.n(3)]
